@@ -241,7 +241,7 @@ def parse_records(raw):
     return ans.split(" | "), out
 
 
-def make_canon(check_flags=False, check_contents=True):
+def make_canon(check_flags=False, check_contents=True, check_reopen=False):
     """canonical form of the implementation's answer: one segment per action, `<answer>~<dump>` as the model prints it
     when every crash point attributed to the action shows an allowed dump, else `<answer>~CRASH@k ...`.
     A crash point with j completed actions is attributed to the action in progress (index j) when one is, else to the
@@ -277,6 +277,9 @@ def make_canon(check_flags=False, check_contents=True):
                 why = dump
             elif check_contents and dump not in allowed:
                 why = "got " + dump
+            elif check_reopen and not check_flags and any(x.startswith("reopen(") for x in flags.split("+")):
+                # the recovered database was closed cleanly and opened again: what it showed is gone (durability, not only C08)
+                why = "flags " + "+".join(x for x in flags.split("+") if x.startswith("reopen("))
             elif check_flags and flags != "ok":
                 strict = [x for x in flags.split("+") if not x.startswith("nestedw%")]
                 if strict and not w:
